@@ -107,6 +107,15 @@ def check_history(spec):
             if "missing from the execution cache" in str(e):
                 return bad(f"cache-raised:{kind}", str(e), "results", call=ci)
             raise
+        except KeyError as e:
+            # a bounded user cache: an entry that was a HIT when the batch was split is evicted by a later miss of the same batch
+            # before the hit's post-processing reads it
+            import traceback
+
+            if kind.startswith("lru") and "cache_hit_postprocessing" in traceback.format_exc():
+                return bad("history:bounded-cache:hit-evicted-before-postprocessing:KeyError", f"KeyError: {e}", "the results of cache=False",
+                           call=ci, cache=kind)
+            raise
         if kind == "true":
             seen_hashes = {}
         for i, (l, t) in enumerate(zip(letters, tapes)):
@@ -115,7 +124,10 @@ def check_history(spec):
             if prev is not None:
                 hits += 1
             if not _same(got[i], ref[i]):
-                other = prev if prev is not None else "?"
+                # the partner is a DIFFERENT letter with the same hash: seen before, or earlier/later in this very batch
+                same_hash = ([prev] if prev is not None else []) + [x for x, tx in zip(letters, tapes) if tx.hash == h]
+                others = [x for x in same_hash if x.rstrip("'") != l.rstrip("'")]
+                other = others[0] if others else (prev if prev is not None else "?")
                 pair = "~".join(sorted([other.rstrip("'"), l.rstrip("'")]))
                 return bad(f"history:collide:{pair}", got[i], ref[i], call=ci, position=i, cache=kind)
             seen_hashes.setdefault(h, l)
